@@ -94,7 +94,8 @@ def typeKey (c : Char) : Key := canon { auth := runtimeAuthority, ns := "type", 
 def filesExec (fs ths sch : List Sexp) : String :=
   match fs.mapM letterOf, ths.mapM (fun t => match t with
       | .list (.atom "th" :: ops) => ops.mapM fun o => match o with
-        | .list [.atom "load", x] => (letterOf x).map typeKey
+        | .list [.atom "load", x] => (letterOf x).map fun c => Pcore.Instantiate.FOp.load (typeKey c)
+        | .list [.atom "loadp", x] => (letterOf x).map fun c => Pcore.Instantiate.FOp.loadParent (typeKey c)
         | _ => none
       | _ => none), sch.mapM Sexp.nat? with
   | some letters, some (p :: progs), some sched =>
@@ -111,12 +112,24 @@ def filesExec (fs ths sch : List Sexp) : String :=
         String.join (lows.map fun ch => s!" {hexOfString (String.singleton ch)}={c.reads.count (typeKey ch)}")
   | _, _, _ => "bad-op"
 
+/-- `cacherace`: `none` when every lazily initialised field found in the anchored files (outside the recorded known
+    finding) is only ever assigned a complete value, otherwise the offending site (the implementation side answers `none`) -/
+def cacherace : String :=
+  match Pcore.LazyCache.publishOffender Pcore.LazyCache.knownPublishFirst Pcore.Generated.cacheSites with
+  | none => "none"
+  | some s => s!"publish-before-init: {s.fn} assigns {s.field} and completes the object afterwards (a reader outside the lock gets it half-built)"
+
 def exec : List Sexp → String
   | [.atom "lockrace"] => lockrace
+  | [.atom "cacherace"] => cacherace
+  | [.atom "structrace", n, r] =>        -- free-running on the implementation side; on a correct tree the only answer
+    match n.nat?, r.nat? with
+    | some n, some r => if n = 0 ∨ r = 0 ∨ n > 100000 ∨ r > 50 then "bad-op" else "full"
+    | _, _ => "bad-op"
   | [.atom "files", .list (.atom "files" :: fs), .list (.atom "threads" :: ths), .list (.atom "sched" :: sch)] => filesExec fs ths sch
   | [.atom "cache", .list [.atom "val", v], .list (.atom "threads" :: ths), .list (.atom "sched" :: sch)] => cacheExec v ths sch
   | [.atom "sched", .list (.atom "tree" :: nodes), .list (.atom "threads" :: ths), .list (.atom "sched" :: sch)] =>
-    if C12.hasStatic nodes then "bad-op" else
+    if C12.hasStatic nodes || (C12.tsTable nodes).any Option.isSome then "bad-op" else
     match C12.treeOf nodes with
     | none => "bad-op"
     | some [] => "bad-op"
